@@ -25,8 +25,8 @@ Lemma repr_spec m0 m1 m2 sm :
   C20_repr_R q0w q0x q0y q0z q1w q1x q1y q1z q2w q2x q2y q2z m0 m1 m2 sm
   = Val ((q0 ++ q1 ++ q2) ++ (Rspec q0 ++ Rspec q1 ++ Rspec q2) ++ (rpy_of q0 ++ rpy_of q1 ++ rpy_of q2)).
 Proof.
-  unfold C20_repr_R, rpy_of, q0, q1, q2. revert U0 U1 U2. open3.
-  try destr_dec; unfold_c20; val_eq;
+  unfold rpy_of, q0, q1, q2. unfold_c20. unfold C20_repr_R. revert U0 U1 U2. open3.
+  try destr_dec; val_eq;
     first [uring | apply f_equal; uring | apply f_equal2; uring].
 Qed.
 End Given.
